@@ -530,6 +530,10 @@ func checkC09(w *World, r *Report) {
 // maybeNilError: can the error value returned here be nil? It cannot when the return is
 // reached only over the != nil edge of a test of the value it returns or wraps.
 func (w *World) maybeNilError(fn *ssa.Function, ret *ssa.Return, v ssa.Value) bool {
+	// a named result read back behind the deferred calls: the value the return statement stored
+	if rs := w.reachingStoreValue(v); rs != nil {
+		v = rs
+	}
 	v = w.Resolve(v)
 	if isNilConst(v) {
 		return true
@@ -547,6 +551,9 @@ func (w *World) maybeNilError(fn *ssa.Function, ret *ssa.Return, v ssa.Value) bo
 		}
 	}
 	// is every path to ret over the non-nil edge of a test of inner?
+	if rs := w.reachingStoreValue(inner); rs != nil {
+		inner = rs
+	}
 	tests := w.nilTests(fn, inner)
 	if len(tests) == 0 {
 		return true
